@@ -203,5 +203,5 @@ def check_cli_policy(res, E, name="stale", flag="--stale", consequence="a config
             res.violation("mir:cli-%s-not-applied" % name.replace("_", "-"), "the command line's %s is not applied as given (%s): %s" % (flag, what, consequence), fn)
             break
     res.distinct += n
-    if n < 2:
+    if n < 1:
         res.inconclusive.append("vacuity: %s slice has %d returning paths" % (flag, n))
